@@ -57,6 +57,8 @@ def minres(
     max_iter = min(max_iter, rhs.size(-2) + 1)
 
     # Epsilon (to prevent nans)
+    # eps ** 2 must not underflow in the working precision (1e-25 ** 2 is zero in float32 / float16)
+    eps = max(eps, torch.finfo(rhs.dtype).tiny ** 0.5)
     eps = torch.tensor(eps, dtype=rhs.dtype, device=rhs.device)
 
     # Create space for matmul product, solution
